@@ -27,7 +27,7 @@ ASSUMPTIONS = [
     "merge order reconstructed from the documented best-first rule; when members tie in individual score any order that validates is accepted",
     "ASSD comparisons use 1e-9 relative tolerance (a strict improvement smaller than that is not demanded)",
 ]
-BUDGET = {"quick": 200, "thorough": 1500}
+BUDGET = {"quick": 200, "thorough": 2400}
 
 REFS_1D6 = [[1, 1, 1, 1, 1, 1], [0, 1, 1, 1, 1, 0], [1, 1, 1, 0, 0, 0], [1, 1, 1, 2, 2, 2], [1, 1, 0, 2, 2, 0], [0, 1, 1, 1, 2, 2],
             [1, 1, 1, 1, 2, 2], [1, 0, 1, 1, 0, 2], [2, 2, 0, 0, 1, 1], [1, 1, 1, 1, 0, 0]]
